@@ -66,8 +66,9 @@ Proof.
 Qed.
 Print Assumptions C19_run_confined.
 
-(* non-vacuity: a concrete session (0x1210 announcing "a.jpg" and "../x", both uploaded, then the connection ends):
-   the run reaches the success-quit stage with a recent message, and exactly one file is handed to os.WriteFile *)
+(* non-vacuity: a concrete session taken from a harness run (one read: a 0x1210 of terminal 13800138000 announcing
+   one file of 3 bytes, no chunk, then the connection ends): the run reaches the success-quit stage with a recent
+   message, the directory is "13800138000" and exactly one (empty) file is handed to os.WriteFile *)
 Definition ex_c19_reads : list (list N) :=
   [[126; 18; 16; 0; 65; 1; 56; 0; 19; 128; 0; 0; 7; 84; 69; 82; 77; 73; 78; 65; 76; 45; 73; 68; 0; 0; 0; 0; 0; 0; 0; 0; 0; 0; 0; 0; 0; 0; 0; 0; 0; 0; 0; 0; 0; 0; 0; 0; 0; 0; 0; 0; 0; 0; 0; 0; 0; 0; 0; 0; 0; 0; 0; 0; 0; 0; 0; 0; 0; 1; 3; 46; 46; 97; 0; 0; 0; 3; 170; 126]].
 Example C19_run_example : Forall bytes ex_c19_reads /\
